@@ -509,7 +509,7 @@ ENC_NAMES = {0: "raw", 1: "copyrect", 2: "rre", 4: "corre", 5: "hextile", 6: "zl
              16: "zrle", 17: "zywrle", 0xFFFFFEFC: "tightpng", 0xFFFFFF20: "lastrect"}
 
 
-def parse_server_stream(buf, fmt, conn, unlzo, unjpeg, stats):
+def parse_server_stream(buf, fmt, conn, unlzo, unjpeg, stats, one_update=False):
     """parse everything the server sent during one op.
     -> list of messages; an FBU is ('fbu', [rect dicts]); rect: x,y,w,h,enc,px (client-format pixels,
     or None for lossy where px is approximate with 'lossy': True), dwire (decompressed wire payload
@@ -524,7 +524,8 @@ def parse_server_stream(buf, fmt, conn, unlzo, unjpeg, stats):
             msgs.append(("cmap", first, rd.take(n * 6)))
             continue
         if t != 0:
-            raise Malformed("unexpected server message type %d at %d" % (t, rd.o - 1))
+            raise Malformed("%d byte(s) at offset %d belong to no announced rectangle and to no server message (type %d)%s"
+                            % (rd.left() + 1, rd.o - 1, t, " - every byte of an update must belong to a rectangle the header announced" if msgs else ""))
         rd.u8()
         nrects = rd.u16()
         rects = []
@@ -613,6 +614,11 @@ def parse_server_stream(buf, fmt, conn, unlzo, unjpeg, stats):
                 raise Malformed("unknown encoding %d" % enc)
             rects.append(r)
         msgs.append(("fbu", rects, nrects))
+        if one_update and rd.left():
+            # one request -> one FramebufferUpdate: every byte of it must belong to a rectangle the header
+            # announced (count, or 0xFFFF ... LastRect); what follows is never skipped or re-synchronised
+            raise Malformed("%d byte(s) follow the %s rectangle(s) the FramebufferUpdate header announced (first: %s)"
+                            % (rd.left(), "LastRect-terminated" if nrects == 0xFFFF else str(nrects), rd.b[rd.o:rd.o + 16].hex()))
     return msgs
 
 
